@@ -2,6 +2,7 @@ package codecaudio
 
 import (
 	"fmt"
+	"reflect"
 
 	"github.com/pion/rtp"
 
@@ -225,5 +226,123 @@ func adtsCases(c *corr.Ctx, n int) {
 			}
 		}
 		cu.HostileStream(c, Mpeg4Audio, a.Instance, pkts, true, fmt.Sprintf("mpeg4audio-adts-%d", i), "ADTS sniffing history")
+		countClasses(c, Mpeg4Audio, a.Instance, pkts, "adts")
+	}
+}
+
+// sliceCount is the number of slices the real decoder keeps in its `fragments` list.
+func sliceCount(d cu.Decoder) int {
+	v := reflect.ValueOf(d.State())
+	if v.Kind() == reflect.Pointer {
+		v = v.Elem()
+	}
+	f := v.FieldByName("fragments")
+	if !f.IsValid() {
+		return 0
+	}
+	return f.Len()
+}
+
+// growCases: C08 bounded memory measured in retained SLICES as well as bytes.  Streams built to
+// make a decoder keep as many fragments as possible: a start fragment followed by a long run of
+// the smallest following fragments the grammar admits (empty where it does), consecutive sequence
+// numbers.  After every call: every retained slice is non-empty (slices ≤ bytes) and the bytes stay
+// below the format's bound.  A prefix of every stream also goes to the model.
+func growCases(c *corr.Ctx) {
+	n := c.N(20000, 400000)
+	type gen struct {
+		fam   *family
+		first func() []byte
+		next  func(i, held int) []byte
+		p     cu.EncParams
+	}
+	big1 := mp1Table.shapes[len(mp1Table.shapes)-1]
+	bigA := ac3Table.shapes[len(ac3Table.shapes)-1]
+	gens := []gen{
+		{fam: families[2], p: cu.EncParams{PT: 96, Max: 1450}, // following fragments without any data
+			first: func() []byte { return append([]byte{1, 2}, bigA.frame(c.Rng)[:5]...) },
+			next:  func(i, held int) []byte { return []byte{3, 2} }},
+		{fam: families[2], p: cu.EncParams{PT: 96, Max: 1450}, // one byte each, up to the declared frame size
+			first: func() []byte { return append([]byte{2, 2}, bigA.frame(c.Rng)[:5]...) },
+			next:  func(i, held int) []byte { return []byte{3, 2, byte(i)} }},
+		{fam: families[0], p: cu.EncParams{PT: 96, SSRC: 8, Max: 1450},
+			first: func() []byte { return m4Packet(13, 3, 3, []int{1}, []byte{7}, -1) },
+			next:  func(i, held int) []byte { return m4Packet(13, 3, 3, []int{1}, []byte{byte(i)}, -1) }},
+		{fam: families[1], p: cu.EncParams{PT: 14, Max: 1450},
+			first: func() []byte { return append([]byte{0, 0, 0, 0}, big1.frame(c.Rng)[:5]...) },
+			next: func(i, held int) []byte {
+				return []byte{0, 0, byte(held >> 8), byte(held), byte(i)}
+			}},
+	}
+	for gi, g := range gens {
+		a, err := g.fam.mk(g.p)
+		if err != nil {
+			continue
+		}
+		s := g.fam.spec
+		dec := a.NewDec()
+		var pkts []*rtp.Packet
+		seq := uint16(65000)
+		mk := func(pl []byte) *rtp.Packet {
+			q := &rtp.Packet{Header: rtp.Header{Version: 2, SequenceNumber: seq}, Payload: pl}
+			seq++
+			return q
+		}
+		maxSlices, maxBytes := 0, 0
+		in := &cu.HostileInput{Mode: "hostile", Codec: s.Name, Extra: a.DInitExtra, Note: fmt.Sprintf("grow: start fragment + %d smallest following fragments", n)}
+		bad := false
+		for i := 0; i <= n && !bad; i++ {
+			var q *rtp.Packet
+			if i == 0 {
+				q = mk(g.first())
+			} else {
+				q = mk(g.next(i, cu.Retained(dec.State())))
+			}
+			if len(pkts) < 300 {
+				pkts = append(pkts, q.Clone())
+				in.Pkts = append(in.Pkts, pktStr(q))
+			}
+			func() {
+				defer func() {
+					if x := recover(); x != nil {
+						bad = true
+						g.fam.viol(c, "C08", "decoding never panics", "dec-panic", in, fmt.Sprintf("Decode panicked at packet %d: %v", i, x))
+					}
+				}()
+				dec.Decode(q)
+			}()
+			sl, by := sliceCount(dec), cu.Retained(dec.State())
+			maxSlices, maxBytes = max(maxSlices, sl), max(maxBytes, by)
+			if sl > by || by > s.RetainBound {
+				bad = true
+				g.fam.viol(c, "C08", "retained memory stays below the format's bound (maximum frame size plus a packet)", "unbounded-slices", in,
+					fmt.Sprintf("after packet %d the decoder keeps %d slices holding %d bytes (bound %d bytes; every kept slice must be non-empty)", i, sl, by, s.RetainBound))
+			}
+		}
+		c.DistN(fmt.Sprintf("%s.grow%d-max-slices", s.Name, gi), maxSlices)
+		c.DistN(fmt.Sprintf("%s.grow%d-max-bytes", s.Name, gi), maxBytes)
+		c.CountOnly(fmt.Sprintf("%s-grow-slices-%d-%d", s.Name, gi, n), true)
+		cu.HostileStream(c, s, a.Instance, pkts, true, fmt.Sprintf("%s-grow-slices-prefix-%d", s.Name, gi), in.Note)
+	}
+}
+
+// countClasses replays a packet list through a fresh real decoder only to fill the distribution
+// (how often the generator reaches frames, 'more', errors, ADTS mode).
+func countClasses(c *corr.Ctx, s *cu.Spec, inst *cu.Instance, pkts []*rtp.Packet, tag string) {
+	d := inst.NewDec()
+	for _, p := range pkts {
+		cls := "panic"
+		func() {
+			defer func() { recover() }()
+			_, err := d.Decode(p.Clone())
+			cls = "ok"
+			if err != nil {
+				cls = s.Classify(err)
+			}
+		}()
+		c.Dist(fmt.Sprintf("%s.%s-%s", s.Name, tag, cls))
+	}
+	if md, ok := d.(m4Dec); ok && m4Cause(md, "resync") != "resync" {
+		c.Dist(s.Name + "." + tag + "-ended-in-adts-mode")
 	}
 }
